@@ -1008,6 +1008,16 @@ func doCheck(prop, tier string) int {
 	if len(samples) == 0 {
 		cov["samples"] = []interface{}{map[string]interface{}{"note": "no violation-free non-trivial run in this batch to sample"}}
 	}
+	// the result of the last determinism self-test of this property (./check --selftest, recorded in
+	// selftest.json together with the commit it ran at; it is a separate, longer command)
+	if b, err := os.ReadFile(filepath.Join(verifDir, "selftest.json")); err == nil {
+		var st map[string]interface{}
+		if json.Unmarshal(b, &st) == nil {
+			if e, ok := st[prop]; ok {
+				cov["determinism_selftest"] = e
+			}
+		}
+	}
 	ev := evidence{PropertyID: prop, Tier: tier, Seed: seed, Level: pi.Level, Coverage: cov, Assumptions: pi.Assumptions, WallS: wall, Violations: nviol}
 	_ = os.MkdirAll(filepath.Join(outDir, "evidence"), 0o755)
 	eb, _ := json.MarshalIndent(ev, "", " ")
